@@ -107,7 +107,15 @@ func NewSeqRun(sc *Scenario) (*SeqRun, error) {
 	}
 	r.H = h
 	for _, d := range sc.Datasets {
-		if _, err := h.Dsm.CreateDataset(d, nil); err != nil {
+		var cfg *server.CreateDatasetConfig
+		switch d {
+		case "proxyP":
+			// a proxy dataset: it has a name and an id of its own but holds nothing locally
+			cfg = &server.CreateDatasetConfig{ProxyDatasetConfig: &server.ProxyDatasetConfig{RemoteURL: "http://remote.example.org/datasets/x"}}
+		case "virtV":
+			cfg = &server.CreateDatasetConfig{VirtualDatasetConfig: &server.VirtualDatasetConfig{Transform: "ZnVuY3Rpb24gYnVpbGRfZW50aXRpZXMoKSB7fQ=="}}
+		}
+		if _, err := h.Dsm.CreateDataset(d, cfg); err != nil {
 			return nil, err
 		}
 		r.M.Create(d)
